@@ -41,10 +41,12 @@ def run_impl(ld, cfg, lens, as_float=False):
 
         def copy(s, freeze=False):
             return s
-    ds = DS().batch_dynamic_time_series_bucket(
-        batch_size=bs, len_key='len', max_padding_rate=conv(rate), max_total_size=None if mts is None else conv(mts),
-        expiration=exp, max_buffered_examples=maxbuf, drop_incomplete=drop,
-        sort_key=None if sortmode == 0 else 'len', reverse_sort=sortmode == 2)
+    kw = dict(max_total_size=None if mts is None else conv(mts), expiration=exp, max_buffered_examples=maxbuf, drop_incomplete=drop,
+              sort_key=None if sortmode == 0 else 'len', reverse_sort=sortmode == 2)
+    if (len(lens) + bs) % 2:
+        # arguments that equal their documented default (None / False) are left out
+        kw = {k: v for k, v in kw.items() if v is not None and v is not False}
+    ds = DS().batch_dynamic_time_series_bucket(batch_size=bs, len_key='len', max_padding_rate=conv(rate), **kw)
     out = []
     # what is iterated is the object itself, a copy of it, a copy of a pipeline built on it, or the profiler's internal copy
     # (deterministic choice per configuration): copies keep every parameter
